@@ -277,6 +277,7 @@ fn replay_child(path: &str) -> ! {
     println!("replay sub={sub} kind={} case={}", r["kind"], case);
     let mut args = vcommon::parse_args();
     args.subcheck = sub.clone();
+    args.rest.clear();
     let mut ctx;
     if let Some(unit) = case.get("unit").and_then(|u| u.as_u64()) {
         // unit-level witness (crash / escaped panic): run the whole unit
@@ -319,7 +320,8 @@ fn main() {
     if let Some(p) = &args.replay {
         replay(p);
     }
-    if let Some(p) = arg_after(&args.rest, "--replay-child") {
+    let raw: Vec<String> = std::env::args().collect();
+    if let Some(p) = arg_after(&raw, "--replay-child") {
         replay_child(&p);
     }
     if let Some((k, n)) = args.worker {
